@@ -510,7 +510,17 @@ func c20RunCurry(variant string, n int, ops []string) string {
 			}
 			return c20Hash(args)
 		})
-		callG = func(a []int) bool { return c.Call(a...) == c }
+		callG = func(a []int) bool {
+			// the caller's slice is spread into Call, has spare capacity, and is overwritten after the Call returned — as a
+			// caller re-using its buffer would do; the accumulated arguments must not live in it
+			buf := make([]int, len(a), len(a)+8)
+			copy(buf, a)
+			same := c.Call(buf...) == c
+			for i := range buf[:cap(buf)] {
+				buf[:cap(buf)][i] = -7777
+			}
+			return same
+		}
 		markDone, isDone, result = c.MarkDone, c.IsDone, c.Result
 	case "I":
 		c := fpgo.CurryNew(func(c *fpgo.CurryDef[interface{}, interface{}], args ...interface{}) interface{} {
@@ -525,11 +535,15 @@ func c20RunCurry(variant string, n int, ops []string) string {
 			return c20Hash(in)
 		})
 		callG = func(a []int) bool {
-			in := make([]interface{}, len(a))
+			in := make([]interface{}, len(a), len(a)+8)
 			for i, v := range a {
 				in[i] = v
 			}
-			return c.Call(in...) == c
+			same := c.Call(in...) == c
+			for i := range in[:cap(in)] {
+				in[:cap(in)][i] = -7777
+			}
+			return same
 		}
 		markDone, isDone = c.MarkDone, c.IsDone
 		result = func() int {
